@@ -690,33 +690,36 @@ def replay(pyhf, backend, precision, chunk, seed, header, subprocess_frac=0.02, 
             if case["defexpect"] != "lib" and (case["defexpect"] == "ok") != (status == "ok"):
                 out["drift"].append(f"Expect({case['def']['fn']}) = {case['defexpect']} but the library call {status}: {exp if status != 'ok' else ''}")
 
-            problems = []          # (kind, text)
-            if (code == 0) != (status == "ok"):
-                problems.append(("exit", f"exit status {code} ({exc or stdout[-160:].strip()!r}) but the library call "
-                                         + ("returns" if status == "ok" else f"raises {exp}")))
-            elif status == "ok":
-                if cmd == "json2xml":
-                    got = read_export(pyhf, out_dir, case["def"]["resultprefix"])
-                    if not same(got, exp):
-                        which = [key for key in ("files", "top", "reimport") if not same(got[key], exp[key])]
-                        problems.append(("value", f"exported {which} differ from writexml's: {json.dumps(got)[:300]} != {json.dumps(exp)[:300]}"))
-                else:
-                    if io["out"] == "file":
+            def judge(code, stdout, exc, envs_cli, out_file, out_dir, to_file):
+                """problems (kind, text) of one command-line run against the definition's call (status, exp, envs_lib)"""
+                problems = []
+                if (code == 0) != (status == "ok"):
+                    problems.append(("exit", f"exit status {code} ({exc or stdout[-160:].strip()!r}) but the library call "
+                                             + ("returns" if status == "ok" else f"raises {exp}")))
+                elif status == "ok":
+                    if cmd == "json2xml":
+                        got = read_export(pyhf, out_dir, case["def"]["resultprefix"])
+                        if not same(got, exp):
+                            which = [key for key in ("files", "top", "reimport") if not same(got[key], exp[key])]
+                            problems.append(("value", f"exported {which} differ from writexml's: {json.dumps(got)[:300]} != {json.dumps(exp)[:300]}"))
+                    elif to_file:
                         if not out_file.exists():
                             problems.append(("file", "--output-file was not written"))
                         else:
-                            why = payload_ok(case, out_file.read_text(), exp, is_file=True)
-                            problems += [("file", "output file: " + w) for w in why]
+                            problems += [("file", "output file: " + w) for w in payload_ok(case, out_file.read_text(), exp, is_file=True)]
                         if cmd == "inspect":
                             problems += [("text", w) for w in payload_ok(case, stdout, exp)]
                         elif stdout.strip():
                             problems.append(("file", f"with --output-file the result is also printed: {stdout[:120]!r}"))
                     else:
                         problems += [("value" if case["payload"] == "json" else "text", w) for w in payload_ok(case, stdout, exp)]
-                if sess.spy_ok and "env" in case["def"]:
-                    out["env_observed"] += 1
-                    if envs_cli != envs_lib:
+                    if sess.spy_ok and "env" in case["def"] and envs_cli != envs_lib:
                         problems.append(("env", f"the command's fits ran under {sorted(envs_cli)}, the call named by the options under {sorted(envs_lib)}"))
+                return problems
+
+            problems = judge(code, stdout, exc, envs_cli, out_file, out_dir, io["out"] == "file")
+            if status == "ok" and (code == 0) and sess.spy_ok and "env" in case["def"]:
+                out["env_observed"] += 1
 
             # ---- file and stdout identical: the stdout twin of an --output-file case
             if not problems and status == "ok" and io["out"] == "file" and cmd != "inspect":
@@ -777,7 +780,7 @@ def replay(pyhf, backend, precision, chunk, seed, header, subprocess_frac=0.02, 
             if len(out["findings"]) < 12 and out["attributed"] < 6:
                 out["attributed"] += 1
                 # which dropped argument reproduces what the command line did?
-                for key, variant in _drop_variants(case["def"]):
+                for key, variant in (_drop_variants(case["def"]) if set(kinds) & {"exit", "value", "text", "file", "env"} else []):
                     vs, ve, venv = sess.lib(variant, P, cdir / f"drop_{key}", k)
                     if (code == 0) != (vs == "ok"):
                         continue
@@ -789,16 +792,22 @@ def replay(pyhf, backend, precision, chunk, seed, header, subprocess_frac=0.02, 
                             continue
                     tags.append(f"ignored_arg:{key}")
                 # does the same option record work over the other routes?
-                if io["in"] != "file" and not any(t.startswith("ignored_arg") for t in tags):
-                    a3, s3 = argv_of(case, P, out_file, out_dir, force_in="file")
-                    c3, o3, _, _ = sess.cli(a3, s3, k)
-                    if (c3 == 0) == (status == "ok") and (status != "ok" or io["out"] != "stdout" or not payload_ok(case, o3, exp)):
-                        tags.append("route:stdin")
-                if io["out"] == "file" and not any(t.startswith(("ignored_arg", "route")) for t in tags):
-                    a4, s4 = argv_of(case, P, None, None)
-                    c4, o4, _, _ = sess.cli(a4, s4, k)
-                    if (c4 == 0) == (status == "ok") and (status != "ok" or not payload_ok(case, o4, exp)):
-                        tags.append("route:output-file")
+                if set(kinds) & {"exit", "value", "text", "file", "env"} and not any(t.startswith("ignored_arg") for t in tags):
+                    if io["in"] != "file":
+                        if out_file is not None and out_file.exists():
+                            out_file.unlink()
+                        if out_dir is not None:
+                            shutil.rmtree(out_dir)
+                            out_dir.mkdir()
+                        a3, s3 = argv_of(case, P, out_file, out_dir, force_in="file")
+                        c3, o3, x3, e3 = sess.cli(a3, s3, k)
+                        if not judge(c3, o3, x3, e3, out_file, out_dir, io["out"] == "file"):
+                            tags.append("route:stdin")
+                    if io["out"] == "file" and "route:stdin" not in tags:
+                        a4, s4 = argv_of(case, P, None, None)
+                        c4, o4, x4, e4 = sess.cli(a4, s4, k)
+                        if not judge(c4, o4, x4, e4, None, None, False):
+                            tags.append("route:output-file")
                 if case["differs"]:
                     s2, e2, _ = sess.lib(case["impl"], P, cdir / "impl_export", k)
                     if (code == 0) == (s2 == "ok"):
